@@ -66,3 +66,16 @@ Fixpoint pyval_eqb (a b : pyval) : bool :=
 
 (* the query tokens are the harness's concrete query dicts *)
 Definition token_ok (p : squery * pyval) : bool := pyval_eqb (squery_val (fst p)) (snd p).
+
+(* Front.resp_val against the harness's rendering of scripted answers: the real validation
+   function applied to the rendered Python object must give what the validation model gives
+   on resp_val.  mode 0: check_instances(x, cls); 1: check_instance(x, cls); 2: check_instance(x, Mapping) *)
+Definition key_text_of (t : list (uri * str)) (u : uri) : str :=
+  match find (fun p => uri_eqb u (fst p)) t with Some p => snd p | None => [] end.
+
+Definition acase_ok (c : resp * cls * Z * list (uri * str) * Z) : bool :=
+  let '(r, cl, mode, t, code) := c in
+  let v := resp_val (key_text_of t) r in
+  vcode (if mode =? 0 then check_instances v (cls_ty cl)
+         else if mode =? 1 then check_instance v (cls_ty cl)
+         else check_instance v TMapping) =? code.
